@@ -66,8 +66,17 @@ def handle : List String → Option String
     match ts with
     | n :: ts =>
       let (ss, ts) ← takeN pService (← n.toNat?) ts
+      -- optional trailer: `V <n> (<owner> <view> <views>)*`
+      let (avs, ts) ← (match ts with
+        | "V" :: k :: ts => do
+          takeN (fun ts => do
+            let (o, ts) ← pStr ts
+            let (v, ts) ← pStr ts
+            let (vs, ts) ← pList ts
+            pure ((⟨o, v, vs⟩ : AttrView), ts)) (← k.toNat?) ts
+        | ts => some ([], ts))
       if !ts.isEmpty then none else
-      let d : Design := ⟨schemes, errors, herrs, api, ss⟩
+      let d : Design := ⟨schemes, errors, herrs, api, ss, avs⟩
       match dangling d with
       | [] => some "closed"
       | ds => some ("dangling " ++ " ".intercalate (ds.map fun x => s!"{x.kind}:{encString x.owner}:{encString x.name}"))
